@@ -38,10 +38,18 @@ Full == [pol |-> "full", k |-> 0]
 CoverCases == {Case(WorldSize, 0, 0, b, Full, 1 + ((b + m) % 3), m, bf, IF bf = 0 THEN "every" ELSE "all", FALSE) :
                  b \in Batches, m \in NMs, bf \in {0, 3}}
 
-MCCases == LawCases \cup CoverCases
+\* (membership in CoverCases, spelled out: TLC would rebuild the set for every state)
+IsCover(x) == /\ x.size = WorldSize /\ x.start = 0 /\ x.end = 0 /\ x.pol = "full" /\ ~x.ponly
+              /\ x.batch \in Batches /\ x.nm \in NMs /\ x.buf \in {0, 3}
+              /\ x.nf = 1 + ((x.batch + x.nm) % 3) /\ x.matcher = (IF x.buf = 0 THEN "every" ELSE "all")
+ASSUME \A x \in CoverCases : IsCover(x)
 
-LawsHold == ~done => Laws
-ExportCover == (done /\ c \in CoverCases) => PrintT(<<"CASE", ToJson(ExportOf(c))>>)
+MCCases == LawCases \cup CoverCases
+\* (the same initial states, without building and sorting the union)
+MCInit == (c \in LawCases \/ c \in CoverCases) /\ done = FALSE
+
+LawsHold == done => Laws     \* (on the successor: checked by the parallel workers)
+ExportCover == (done /\ IsCover(c)) => PrintT(<<"CASE", ToJson(ExportOf(c))>>)
 
 (* ---- simulation: seeded random draws from the full product, one case per behaviour ---- *)
 NoCase == Case(-1, 0, 0, 1, Full, 1, 1, 0, "none", FALSE)
@@ -59,6 +67,6 @@ Draw == /\ c.size = -1
         /\ UNCHANGED done
 SimNext == Draw \/ (c.size # -1 /\ Finish)
 
-SimLawsHold == (c.size # -1 /\ ~done) => Laws
+SimLawsHold == (c.size # -1 /\ done) => Laws
 ExportAll == (done /\ c.size # -1) => PrintT(<<"CASE", ToJson(ExportOf(c))>>)
 =============================================================================
